@@ -264,3 +264,167 @@ Definition vrib_query_code (st : estate) (i : nat) (af pfx : N) : vanswer :=
             end
        else VNever
   else VAbsent.
+
+(* ------------------------------------------------------------------ *)
+(* Ingress units that a reload removes and adds (src/manager.rs spawn_internal:
+   a running unit whose block left the configuration is sent Terminate, a unit
+   the configuration has and that does not run is started; src/comms.rs
+   GateCommand::Terminate: the unit's gate tells its clones and the unit ends;
+   src/units/bmp_tcp_in/router_handler.rs read_from_router: the 'gate
+   terminated' exit of the read loop falls into the common clean-up -
+   WithdrawBulk(ids_for_parent(router id)), EndOfStream - like every other exit;
+   unit.rs BmpTcpInRunner::run: a unit that is started registers an ingress id
+   of its own and looks its routers up under that parent).
+
+   The pipeline of these cases has TWO bmp-tcp-in units, `bmp-in` and `bmp-in2`,
+   which every RIB unit sources; the engine has eight router addresses: 0..3
+   connect to bmp-in, 4..7 to bmp-in2. Only bmp-in is taken out and put back. *)
+
+Definition on_unit1 (k : N) : bool := (k <? 4)%N.
+Definition unit1_addrs : list N := [0; 1; 2; 3]%N.
+Definition unit2_addrs : list N := [4; 5; 6; 7]%N.
+
+(* the source a router address is: a router of the g-th bmp-in unit after the
+   first is not the router of an earlier one - it is looked up under another
+   parent (PipeModel keys sessions, register addresses and wire identities by
+   one number, so the number carries the incarnation) *)
+Definition src_key (g k : N) : N := if on_unit1 k then (k + 8 * g)%N else k.
+
+Definition wop_router (o : wop) : option N :=
+  match o with
+  | WConnect k | WMsg k _ | WDisconnect k | WMetrics k => Some k
+  | _ => None
+  end.
+Definition wop_rekey (f : N -> N) (o : wop) : wop :=
+  match o with
+  | WConnect k => WConnect (f k)
+  | WMsg k m => WMsg (f k) m
+  | WDisconnect k => WDisconnect (f k)
+  | WMetrics k => WMetrics (f k)
+  | _ => o
+  end.
+
+Definition w_set_unit (w : world) (u : N) : world :=
+  MkWorld (w_reg w) u (w_routers w) (w_rib w) (w_bgp w) (w_bgp_conns w) (w_ids w).
+Definition w_set_reg (w : world) (r : reg) : world :=
+  MkWorld r (w_unit w) (w_routers w) (w_rib w) (w_bgp w) (w_bgp_conns w) (w_ids w).
+Definition es_map_w (f : world -> world) (st : estate) : estate :=
+  MkEs (f (es_w st)) (es_file st) (es_scripts st) (es_compiled st) (es_rib st) (es_rib2kind st) (es_rib2 st)
+       (es_s st) (es_s2 st) (es_vribs st).
+
+Record istate := MkIs {
+  is_e : estate;         (* everything so far: sessions, register, RIB units, files, scripts *)
+  is_want : bool;        (* the operator's file has [units.bmp-in] *)
+  is_run : bool;         (* a bmp-in unit runs *)
+  is_gen : N;            (* bmp-in units started before the one that runs (or ran last) *)
+  is_uid : N;            (* the ingress id that unit registered for itself *)
+  is_uid2 : N }.         (* ... and bmp-in2 *)
+
+Inductive iop :=
+| IE (o : eop)           (* traffic (router addresses 0..7), edits, reloads *)
+| IIngress (b : bool).   (* the operator takes [units.bmp-in] out of the configuration / puts it back *)
+
+Definition i_init (s0 : script) (n0 : N) : istate :=
+  let e := e_init_v s0 n0 in
+  let '(u2, r') := reg_register (w_reg (es_w e)) in
+  MkIs (es_map_w (fun w => w_set_reg w r') e) true true 0 (w_unit (es_w e)) u2.
+
+(* the connection of router `key` ends and nobody downstream hears of it: the
+   session is gone, the RIB units keep what they have (what the property asks
+   for does not change: the sessions of that router are over) *)
+Definition e_lose (st : estate) (key : N) : estate :=
+  let w := es_w st in
+  MkEs (MkWorld (w_reg w) (w_unit w) (delete key (w_routers w)) (w_rib w) (w_bgp w) (w_bgp_conns w) (w_ids w))
+       (es_file st) (es_scripts st) (es_compiled st) (es_rib st) (es_rib2kind st) (es_rib2 st)
+       (sstep (es_s st) (WDisconnect key)).1
+       (match es_rib2 st, es_s2 st with
+        | Some _, Some s2 => Some (sstep s2 (WDisconnect key)).1
+        | _, _ => None
+        end)
+       (es_vribs st).
+
+(* What the termination of bmp-in is made of: the end of the connection of each
+   of its routers. *)
+Definition i_removal_ops (st : istate) : list eop :=
+  if is_run st && negb (is_want st)
+  then map (fun k => EW (WDisconnect (src_key (is_gen st) k))) unit1_addrs
+  else [].
+
+(* legacy = true: the RIB unit as it was before fix 29de9ab - its Reconfiguring
+   arm dropped the links of the previous configuration at once (Link::drop
+   sends Unsubscribe), so the gate of a unit that the same reload terminates
+   had usually forgotten the RIB units before the unit's router handlers sent
+   their WithdrawBulk: one schedule of the two, the common one, is modelled. *)
+Definition i_remove (legacy : bool) (st : istate) : estate :=
+  if is_run st && negb (is_want st)
+  then if legacy
+       then fold_left e_lose (map (src_key (is_gen st)) unit1_addrs) (is_e st)
+       else fold_left (e_step false) (i_removal_ops st) (is_e st)
+  else is_e st.
+
+Definition i_step (legacy : bool) (st : istate) (o : iop) : istate :=
+  match o with
+  | IIngress b => MkIs (is_e st) b (is_run st) (is_gen st) (is_uid st) (is_uid2 st)
+  | IE (EW wo) =>
+      match wop_router wo with
+      | Some k =>
+          if (8 <=? k)%N then st                                   (* the engine has eight router addresses *)
+          else if on_unit1 k && negb (is_run st) then st           (* nobody listens there, no session of that router *)
+          else
+            let e := es_map_w (fun w => w_set_unit w (if on_unit1 k then is_uid st else is_uid2 st)) (is_e st) in
+            MkIs (e_step false e (EW (wop_rekey (src_key (is_gen st)) wo)))
+                 (is_want st) (is_run st) (is_gen st) (is_uid st) (is_uid2 st)
+      | None => MkIs (e_step false (is_e st) (EW wo)) (is_want st) (is_run st) (is_gen st) (is_uid st) (is_uid2 st)
+      end
+  | IE EReload =>
+      (* a running bmp-in that the file no longer has is terminated: every connection of the unit ends; then what a
+         reload does to the other units; then a bmp-in that the file has and that does not run is started: a NEW unit,
+         which registers an ingress id of its own *)
+      let e2 := e_step false (i_remove legacy st) EReload in
+      if negb (is_run st) && is_want st
+      then let '(uid, r') := reg_register (w_reg (es_w e2)) in
+           MkIs (es_map_w (fun w => w_set_reg w r') e2) (is_want st) true (is_gen st + 1) uid (is_uid2 st)
+      else MkIs e2 (is_want st) (is_run st && is_want st) (is_gen st) (is_uid st) (is_uid2 st)
+  | IE o => MkIs (e_step false (is_e st) o) (is_want st) (is_run st) (is_gen st) (is_uid st) (is_uid2 st)
+  end.
+
+Definition i_run (legacy : bool) (st : istate) (h : list iop) : istate := fold_left (i_step legacy) h st.
+
+(* GET <http_api_path of the unit>: the router list of a running unit shows its
+   connected routers; nothing answers at the path of a unit that does not run
+   (the HTTP resource is held weakly and goes with the unit: 404) *)
+Definition live_count (w : world) (keys : list N) : N :=
+  N.of_nat (length (List.filter (fun k => match w_routers w !! k with Some _ => true | None => false end) keys)).
+Definition i_listed (st : istate) (u : N) : option N :=
+  if (u =? 0)%N
+  then if is_run st then Some (live_count (es_w (is_e st)) (map (src_key (is_gen st)) unit1_addrs)) else None
+  else Some (live_count (es_w (is_e st)) unit2_addrs).
+
+(* the ingress ids that the end of the connections of `keys` withdraws *)
+Definition removed_ids (w : world) (keys : list N) : list N :=
+  flat_map (fun key => match w_routers w !! key with
+                       | Some (rid, _) => reg_ids_for_parent (w_reg w) rid
+                       | None => []
+                       end) keys.
+
+(* the ingress id under which router address k is connected now (what the router list of its unit names) *)
+Definition i_rid (st : istate) (k : N) : option N :=
+  match w_routers (es_w (is_e st)) !! src_key (is_gen st) k with
+  | Some (rid, _) => Some rid
+  | None => None
+  end.
+
+(* readings of an istate for statements: the session of a source key, the ingress ids registered under a router,
+   what unit `rib` reports for one (family, prefix, ingress id), what the property's reading holds for a route *)
+Definition i_session (st : istate) (key : N) : option (N * sm) := w_routers (es_w (is_e st)) !! key.
+Definition i_children (st : istate) (rid : N) : list N := reg_ids_for_parent (w_reg (es_w (is_e st))) rid.
+Definition i_rib_lookup (st : istate) (k : rkey) : option (bool * N) := rib_lookup (ru_rib (es_rib (is_e st))) k.
+Definition i_spec_lookup (st : istate) (f p : N) (x : wid) : option (bool * N) := s_rib (es_s (is_e st)) !! (f, p, x).
+Definition i_spec_session (st : istate) (key : N) : bool :=
+  match s_sess (es_s (is_e st)) !! key with Some _ => true | None => false end.
+Definition withdrawn_of (o : option (bool * N)) : option (bool * N) :=
+  match o with Some (_, a) => Some (false, a) | None => None end.
+
+(* no source names the id the register hands out next as its parent (ids are handed out in order: C14) *)
+Definition next_id_unused (r : reg) : Prop :=
+  forall id inf, infos r !! id = Some inf -> i_parent inf <> Some (serial r).
